@@ -3,10 +3,10 @@
 import json, os, sys
 sys.path.insert(0, os.path.dirname(os.path.abspath(__file__)))
 from vconfig import PROPS
-from manifest_meta import META, ENGINES, ALL_IDS, NOT_BUILT_REASON
+from manifest_meta import META, ENGINES, ALL_IDS, NOT_BUILT_REASON, CLAIMED
 
 checks = []
-for pid in sorted(PROPS):
+for pid in sorted(CLAIMED):
     m = META[pid]
     checks.append({
         "property_id": pid,
@@ -20,7 +20,7 @@ for pid in sorted(PROPS):
         "technique": m["technique"],
     })
 na = [{"property_id": pid, "reason": NOT_BUILT_REASON.get(pid, "check not built yet (see DESIGN.md section 6 build order); nothing is claimed for it")}
-      for pid in ALL_IDS if pid not in PROPS]
+      for pid in ALL_IDS if pid not in CLAIMED]
 man = {
     "version": 1,
     "setup_cmd": "./setup.sh",
@@ -31,7 +31,7 @@ man = {
         "source_commits": [],
         "add_only": True,
     },
-    "engines": [e for e in ENGINES if any(p in PROPS for p in e["serves_properties"])],
+    "engines": [e for e in ENGINES if any(p in CLAIMED for p in e["serves_properties"])],
     "checks": checks,
     "notes": "Runtime monitoring: every check executes the real MetalLB code under generated / hostile / concurrent workloads and decides with an oracle over what was observed. Exit 2 of a check = inconclusive (build failure, watchdog, observation threshold).",
     "not_applicable": na,
